@@ -18,7 +18,9 @@ def run(ctx):
     incr.run_incremental(ctx, "C02", n // 3, salt=1, size_range=(3, 7),
                          feat=dict(restat=0.55, order_only=0.7, deps=0.6, generator=0.1, phony=0.35),
                          change_kinds=["touch", "touch", "edit", "edit_hdr", "rm_out", "cmd", "rm_depfile"])
-    ctx.rule = ("seeded random graphs of 3..%d statements x histories of 2..5 change+build rounds (plus immediate re-runs); "
+    # self-regenerating manifests: build.ninja is a generator output selected by a config file
+    incr.run_regen(ctx, "C02", n // 10, size_range=(2, 6))
+    ctx.rule = ("seeded random graphs of 3..%d statements x histories of 2..5 change+build rounds (plus immediate re-runs), plus histories in which ninja regenerates and reloads its own manifest; "
                 "distinct_nontrivial = distinct (scenario, build step) pairs judged by this property's monitor that follow at "
                 "least one change" % (9 if quick else 14))
     ctx.assumptions = ["commands are deterministic functions of what they read at START and write only declared outputs",
